@@ -457,7 +457,14 @@ func realMain(id string, pc propCfg, workDir string) int {
 	}
 	os.MkdirAll(filepath.Join(verifDir, "evidence"), 0o755)
 	js, _ := json.MarshalIndent(ev, "", " ")
-	if err := os.WriteFile(filepath.Join(verifDir, "evidence", id+".json"), js, 0o644); err != nil {
+	evPath := filepath.Join(verifDir, "evidence", id+".json")
+	if repoDir != "/repo" {
+		// a run against a scratch copy (self-tests, seeded changes) must not
+		// replace the evidence of the check on /repo
+		os.MkdirAll(filepath.Join(verifDir, "work", "evidence-scratch"), 0o755)
+		evPath = filepath.Join(verifDir, "work", "evidence-scratch", id+".json")
+	}
+	if err := os.WriteFile(evPath, js, 0o644); err != nil {
 		fatal2("%v", err)
 	}
 	fmt.Printf("zcheck %s %s: %d runs (%d non-trivial, %d distinct), %d steps, %.0f simulated s, faults=%v, %.1fs wall, %.0f runs/hour\n",
